@@ -92,7 +92,9 @@ def check_tree(t, m, D, dh, default, size, keys, init_root):
     return None
 
 
-def run_tree_history(size, default, hist, p=None):
+def run_tree_history(size, default, hist, p=None, reopen=None):
+    """reopen: index of the operation before which the tree is replaced by SparseMerkleTree.from_db over the same
+    database and root (the history continues on the re-opened tree, which must behave as the same map)"""
     D = 8 * size
     dh = default_hashes(D, default)
     try:
@@ -107,6 +109,11 @@ def run_tree_history(size, default, hist, p=None):
     for i, op in enumerate(hist):
         kb = op[1]
         k = int.from_bytes(kb, "big")
+        if reopen == i:
+            try:
+                t = SparseMerkleTree.from_db(t.db, t.root_hash, key_size=size, default=default)
+            except Exception as e:
+                return "from_db before op %d raised %s" % (i, type(e).__name__)
         db_before = dict(t.db)
         try:
             if op[0] == "set":
@@ -220,9 +227,18 @@ def _work14(chunk):
     for size, default, hist in chunk:
         res = run_tree_history(size, default, hist, p)
         p.evaluations += 1
+        ro = None
+        if not res:
+            # the same history continued on a tree re-opened with from_db (before the first / the second operation)
+            ro = 0 if len(hist) == 1 else 1
+            res = run_tree_history(size, default, hist, None, reopen=ro)
+            p.evaluations += 1
+            if res:
+                res = "tree re-opened with from_db before op %d: %s" % (ro, res)
         p.sig(size, default == b"", tuple(sorted(o[0] for o in hist)), tuple(keys_for(size).index(o[1]) for o in hist))
         if res:
-            p.violation(res, {"driver": "smtb", "prop": "C14", "size": size, "default": default.hex(), "hist": jh(hist)})
+            p.violation(res, {"driver": "smtb", "prop": "C14", "size": size, "default": default.hex(), "hist": jh(hist),
+                              "reopen": ro})
         elif p.evaluations % 499 == 1:
             p.sample({"key_size": size, "default": default.hex(), "history": jh(hist)})
     return p
@@ -280,7 +296,8 @@ def run(prop, tier, seed):
                        "(diverging at first / middle / last bit, all-zero, all-one) x 5 ops (set 1-byte / 40-byte, "
                        "set blank via []=, delete, del []) and of length 3 over %d keys x 3 ops%s; key size 32 sampled "
                        "(seed %d); after every op: root vs independent full-tree root, database only extended, returned "
-                       "path hashes, get/exists/in/[] and calc_root(branch) for 7 keys, from_db reads identically"
+                       "path hashes, get/exists/in/[] and calc_root(branch) for 7 keys, from_db reads identically; every history is run a second time with the tree re-opened "
+                       "through from_db before its first (length 1) / second operation"
                        % (len(items), 4 if thorough else 3, "" if thorough else " (size 3 sampled 30%)", seed)]
     items = []
     for size in sizes:
@@ -320,6 +337,6 @@ def run(prop, tier, seed):
 def replay(case):
     default = bytes.fromhex(case["default"])
     if case["prop"] == "C14":
-        return run_tree_history(case["size"], default, ujh(case["hist"]))
+        return run_tree_history(case["size"], default, ujh(case["hist"]), reopen=case.get("reopen"))
     return run_proof_history(case["size"], default, bytes.fromhex(case["tracked"]), ujh(case["hist"]),
                              {int(a): b for a, b in case["plan"].items()})
